@@ -104,6 +104,7 @@ package rcmgr
 
 //@ func (rc *resources) addStream
 //@ prop C03
+//@ ensures result == nil ==> streamWithin(rc, dir)
 //@ ensures freshZero()
 //@ requires nonneg(rc)
 //@ ensures result == nil ==> rc.nstreamsIn == old(rc.nstreamsIn) + ite(dir == network.DirInbound, 1, 0) &&
@@ -121,6 +122,7 @@ package rcmgr
 
 //@ func (rc *resources) addConn
 //@ prop C03
+//@ ensures result == nil ==> connWithin(rc, dir, usefd)
 //@ ensures freshZero()
 //@ requires nonneg(rc)
 //@ ensures result == nil ==> rc.nconnsIn == old(rc.nconnsIn) + ite(dir == network.DirInbound, 1, 0) &&
@@ -154,6 +156,16 @@ package rcmgr
 //@     s.rc.nstreamsOut == old(s.rc.nstreamsOut) && s.rc.nfd == old(s.rc.nfd)
 //@ pred statNonneg(st network.ScopeStat) = st.Memory >= 0 && st.NumStreamsInbound >= 0 && st.NumStreamsOutbound >= 0 &&
 //@     st.NumConnsInbound >= 0 && st.NumConnsOutbound >= 0 && st.NumFD >= 0
+//@ pred memWithin(r *resources, prio uint8) = r.limit.GetMemoryLimit() != MaxInt64 ==>
+//@     r.memory <= fdiv(r.limit.GetMemoryLimit() * (1 + prio), 256)
+//@ pred streamWithin(r *resources, dir network.Direction) =
+//@     (dir == network.DirInbound ==> r.nstreamsIn <= r.limit.GetStreamLimit(network.DirInbound)) &&
+//@     (dir != network.DirInbound ==> r.nstreamsOut <= r.limit.GetStreamLimit(network.DirOutbound)) &&
+//@     r.nstreamsIn + r.nstreamsOut <= r.limit.GetStreamTotalLimit()
+//@ pred connWithin(r *resources, dir network.Direction, usefd bool) =
+//@     (dir == network.DirInbound ==> r.nconnsIn <= r.limit.GetConnLimit(network.DirInbound)) &&
+//@     (dir != network.DirInbound ==> r.nconnsOut <= r.limit.GetConnLimit(network.DirOutbound)) &&
+//@     r.nconnsIn + r.nconnsOut <= r.limit.GetConnTotalLimit() && (usefd ==> r.nfd <= r.limit.GetFDLimit())
 //@ pred rcPlus(s *resourceScope, st network.ScopeStat) = s.rc.memory == old(s.rc.memory) + st.Memory &&
 //@     s.rc.nstreamsIn == old(s.rc.nstreamsIn) + st.NumStreamsInbound && s.rc.nstreamsOut == old(s.rc.nstreamsOut) + st.NumStreamsOutbound &&
 //@     s.rc.nconnsIn == old(s.rc.nconnsIn) + st.NumConnsInbound && s.rc.nconnsOut == old(s.rc.nconnsOut) + st.NumConnsOutbound &&
@@ -165,6 +177,7 @@ package rcmgr
 
 //@ func (s *resourceScope) ReserveMemoryForChild
 //@ prop C03
+//@ ensures result1 == nil ==> memWithin(&s.rc, prio)
 //@ ensures freshZero()
 //@ requires wfScope(s)
 //@ ensures result1 == nil ==> !s.done && size >= 0 && s.rc.memory == old(s.rc.memory) + size
@@ -184,6 +197,7 @@ package rcmgr
 
 //@ func (s *resourceScope) AddStreamForChild
 //@ prop C03
+//@ ensures result1 == nil ==> streamWithin(&s.rc, dir)
 //@ ensures freshZero()
 //@ requires wfScope(s)
 //@ ensures result1 == nil ==> !s.done && s.rc.nstreamsIn == old(s.rc.nstreamsIn) + ite(dir == network.DirInbound, 1, 0) &&
@@ -203,6 +217,7 @@ package rcmgr
 
 //@ func (s *resourceScope) AddConnForChild
 //@ prop C03
+//@ ensures result1 == nil ==> connWithin(&s.rc, dir, usefd)
 //@ ensures freshZero()
 //@ requires wfScope(s)
 //@ ensures result1 == nil ==> !s.done && s.rc.nconnsIn == old(s.rc.nconnsIn) + ite(dir == network.DirInbound, 1, 0) &&
@@ -224,6 +239,14 @@ package rcmgr
 
 //@ func (s *resourceScope) ReserveForChild
 //@ prop C03
+//@ ensures result == nil ==> memWithin(&s.rc, 255) &&
+//@         (st.NumStreamsInbound > 0 ==> s.rc.nstreamsIn <= s.rc.limit.GetStreamLimit(network.DirInbound)) &&
+//@         (st.NumStreamsOutbound > 0 ==> s.rc.nstreamsOut <= s.rc.limit.GetStreamLimit(network.DirOutbound)) &&
+//@         s.rc.nstreamsIn + s.rc.nstreamsOut <= s.rc.limit.GetStreamTotalLimit() &&
+//@         (st.NumConnsInbound > 0 ==> s.rc.nconnsIn <= s.rc.limit.GetConnLimit(network.DirInbound)) &&
+//@         (st.NumConnsOutbound > 0 ==> s.rc.nconnsOut <= s.rc.limit.GetConnLimit(network.DirOutbound)) &&
+//@         s.rc.nconnsIn + s.rc.nconnsOut <= s.rc.limit.GetConnTotalLimit() &&
+//@         (st.NumFD > 0 ==> s.rc.nfd <= s.rc.limit.GetFDLimit())
 //@ ensures freshZero()
 //@ requires wfScope(s) && statNonneg(st)
 //@ ensures result == nil ==> !s.done && rcPlus(s, st)
@@ -252,6 +275,8 @@ package rcmgr
 
 //@ func (s *resourceScope) reserveMemoryForEdges
 //@ prop C03
+//@ loop 0 invariant forall j int :: 0 <= j && j < reserved ==> memWithin(&s.edges[j].rc, prio)
+//@ ensures result == nil ==> forall j int :: 0 <= j && j < len(s.edges) ==> memWithin(&s.edges[j].rc, prio)
 //@ ensures freshZero()
 //@ requires s.owner == nil && size >= 0 && allNonneg() && edgesOK(s)
 //@ loop 0 invariant freshZero()
@@ -274,6 +299,7 @@ package rcmgr
 
 //@ func (s *resourceScope) ReserveMemory
 //@ prop C03
+//@ ensures result == nil ==> memWithin(&s.rc, prio) && (forall j int :: 0 <= j && j < len(s.edges) ==> memWithin(&s.edges[j].rc, prio))
 //@ ensures freshZero()
 //@ requires s.owner == nil && size >= 0 && allNonneg() && edgesOK(s)
 //@ ensures result == nil ==> !s.done && s.rc.memory == old(s.rc.memory) + size &&
@@ -286,6 +312,8 @@ package rcmgr
 
 //@ func (s *resourceScope) addStreamForEdges
 //@ prop C03
+//@ loop 0 invariant forall j int :: 0 <= j && j < reserved ==> streamWithin(&s.edges[j].rc, dir)
+//@ ensures result == nil ==> forall j int :: 0 <= j && j < len(s.edges) ==> streamWithin(&s.edges[j].rc, dir)
 //@ ensures freshZero()
 //@ requires s.owner == nil && true && allNonneg() && edgesOK(s)
 //@ loop 0 invariant freshZero()
@@ -308,6 +336,7 @@ package rcmgr
 
 //@ func (s *resourceScope) AddStream
 //@ prop C03
+//@ ensures result == nil ==> streamWithin(&s.rc, dir) && (forall j int :: 0 <= j && j < len(s.edges) ==> streamWithin(&s.edges[j].rc, dir))
 //@ ensures freshZero()
 //@ requires s.owner == nil && true && allNonneg() && edgesOK(s)
 //@ ensures result == nil ==> !s.done && s.rc.nstreamsIn == old(s.rc.nstreamsIn) + ite(dir == network.DirInbound, 1, 0) && s.rc.nstreamsOut == old(s.rc.nstreamsOut) + ite(dir == network.DirInbound, 0, 1) &&
@@ -320,6 +349,8 @@ package rcmgr
 
 //@ func (s *resourceScope) addConnForEdges
 //@ prop C03
+//@ loop 0 invariant forall j int :: 0 <= j && j < reserved ==> connWithin(&s.edges[j].rc, dir, usefd)
+//@ ensures result == nil ==> forall j int :: 0 <= j && j < len(s.edges) ==> connWithin(&s.edges[j].rc, dir, usefd)
 //@ ensures freshZero()
 //@ requires s.owner == nil && true && allNonneg() && edgesOK(s)
 //@ loop 0 invariant freshZero()
@@ -342,6 +373,7 @@ package rcmgr
 
 //@ func (s *resourceScope) AddConn
 //@ prop C03
+//@ ensures result == nil ==> connWithin(&s.rc, dir, usefd) && (forall j int :: 0 <= j && j < len(s.edges) ==> connWithin(&s.edges[j].rc, dir, usefd))
 //@ ensures freshZero()
 //@ requires s.owner == nil && true && allNonneg() && edgesOK(s)
 //@ ensures result == nil ==> !s.done && s.rc.nconnsIn == old(s.rc.nconnsIn) + ite(dir == network.DirInbound, 1, 0) && s.rc.nconnsOut == old(s.rc.nconnsOut) + ite(dir == network.DirInbound, 0, 1) && s.rc.nfd == old(s.rc.nfd) + ite(usefd, 1, 0) &&
